@@ -1,6 +1,6 @@
 SPECIFICATION Spec
 CONSTANTS
-  MaxWrap = 3
+  MaxWrap = 5
   OptionalPlain = FALSE
 INVARIANTS Transparent PlainAgrees FromIterAgrees Sound Emit
 CHECK_DEADLOCK FALSE
